@@ -201,9 +201,22 @@ def run_case(case, ctx):
 
     # the stopping tolerance: tight, or the estimator's default (the same for every fit of the case)
     tol_kw = {"tol": 1e-12 if dt == "float64" else 1e-6}
-    if dt == "float64" and rs.rand() < 0.4:
+    pick_tol = rs.rand()
+    if dt == "float64" and pick_tol < 0.4:
         tol_kw = {}
         desc["tol"] = "default"
+    elif dt == "float64" and pick_tol < 0.55:
+        # a loosened tolerance: every component stops early on the tolerance test, the fitted attributes still belong together
+        tol_kw = {"tol": float(gen.choice(rs, [1e-2, 1e-3]))}
+        desc["tol"] = tol_kw["tol"]
+        ctx.count("plsr_loose_tolerance")
+    mixed = False
+    if dt == "float32" and rs.rand() < 0.4:
+        # single-precision features with double-precision responses (labels read from another file)
+        Y = ref.hp(Y)
+        mixed = True
+        desc["Y_dtype"] = "float64"
+        ctx.count("plsr_mixed_precision")
 
     def fit(Xa, Ya):
         m = CP_PLSR(n_components=ncomp, n_iter_max=300, random_state=seed, **tol_kw)
@@ -265,19 +278,20 @@ def run_case(case, ctx):
     ctx.count("clause/plsr-shift-invariance")
     # ... of ordinary size, or large compared with the spread of the data (temperatures in mK, dates as day counts)
     big_x = float(gen.choice(rs, [3.0, 3.0, 1e3])) if dt == "float64" else 3.0
-    big_y = float(gen.choice(rs, [3.0, 3.0, 1e4, 1e6])) if dt == "float64" else float(gen.choice(rs, [3.0, 30.0]))
+    big_y = float(gen.choice(rs, [3.0, 3.0, 1e4, 1e6])) if (dt == "float64" or mixed) else float(gen.choice(rs, [3.0, 30.0]))
     desc["shift_sizes"] = [big_x, big_y]
     ctx.count("plsr_shift_size/%g" % big_y)
     cX = (rs.standard_normal(fshape) * big_x * float(np.max(np.abs(X)) / 3 + 1e-300 if "units" in desc else 1.0)).astype(dt)
-    cY = (rs.standard_normal(np.shape(Y)[1:]) * big_y * float(np.max(np.abs(Y)) / 3 + 1e-300 if "units" in desc else 1.0)).astype(dt)
-    m2 = fit((X + cX).astype(dt), (Y + cY).astype(dt))
+    cY = (rs.standard_normal(np.shape(Y)[1:]) * big_y * float(np.max(np.abs(Y)) / 3 + 1e-300 if "units" in desc else 1.0)).astype(Y.dtype)
+    m2 = fit((X + cX).astype(dt), (Y + cY).astype(Y.dtype))
     P2 = ref.hp(m2.predict((X + cX).astype(dt))) - ref.hp(cY)
     sc_p = np.max(np.abs(P0)) + 1e-300
     load_dev = max(np.max(np.abs(np.abs(ref.hp(a)) - np.abs(ref.hp(b)))) for a, b in zip(list(m.X_factors[1:]) + [m.Y_factors[1]], list(m2.X_factors[1:]) + [m2.Y_factors[1]]))
     amp = 50 if dt == "float64" else 5
-    if load_dev > amp * 100 * rtol:
+    ctx.note("plsr_shift_loading_deviation_%s" % dt, float(load_dev), limit=1)
+    if load_dev > (amp * 100 * rtol if dt == "float64" else 0.01):
         viol("shift-invariance", "loadings", "loadings change by %.3g when a constant tensor is added to X and a constant to Y" % load_dev, desc)
-    elif np.max(np.abs(P2.reshape(P0.shape) - P0)) > amp * 100 * rtol * sc_p:
+    elif np.max(np.abs(P2.reshape(P0.shape) - P0)) > (amp * 100 * rtol if dt == "float64" else 0.02) * sc_p:
         viol("shift-invariance", "predictions", "predictions minus offset change by %.3g (scale %.3g) under constant shifts" % (np.max(np.abs(P2.reshape(P0.shape) - P0)), sc_p), desc)
     # sample permutation
     ctx.count("clause/plsr-permutation")
@@ -285,7 +299,8 @@ def run_case(case, ctx):
     m3 = fit(X[perm], Y[perm])
     T3 = ref.hp(m3.X_factors[0])
     P3 = ref.hp(m3.predict(X[perm].copy()))
-    if np.max(np.abs(np.abs(T3) - np.abs(T0[perm]))) > amp * 100 * rtol * scale_T:
+    ptol = amp * 100 * rtol if dt == "float64" else 0.02
+    if np.max(np.abs(np.abs(T3) - np.abs(T0[perm]))) > ptol * scale_T:
         viol("permutation-equivariance", "scores", "scores are not permuted consistently with the samples (dev %.3g)" % np.max(np.abs(np.abs(T3) - np.abs(T0[perm]))), desc)
-    elif np.max(np.abs(P3 - P0[perm])) > amp * 100 * rtol * sc_p:
+    elif np.max(np.abs(P3 - P0[perm])) > ptol * sc_p:
         viol("permutation-equivariance", "predictions", "predictions are not permuted consistently with the samples (dev %.3g)" % np.max(np.abs(P3 - P0[perm])), desc)
